@@ -290,6 +290,12 @@ def get_used_or_defined_symbols(routine):
         # but the loop still needs the declaration of that variable
         used_or_defined_symbols |= OrderedSet(loop.variable for loop in FindNodes(ir.Loop).visit(routine.body))
 
+        # The arguments of PRINT statements are read, which the dataflow analysis does not record
+        used_or_defined_symbols |= FindVariables(unique=True).visit([
+            value for stmt in FindNodes(ir.PrintStmt).visit(routine.body)
+            for value in stmt.values if not isinstance(value, str)
+        ])
+
         # We search for symbols used to define array sizes of symbols referenced
         # in the body, as well as local arrays declared in the routine.
         used_or_defined_array_shapes = [s.shape for s in used_or_defined_symbols if isinstance(s, sym.Array)]
